@@ -35,7 +35,7 @@ Has(e, f) == f \in DOMAIN e
 
 StartPos == Decode([r |-> <<261944453, 67977560, 0, 0, 0, 0, 475842920, 669809813>>, stm |-> 0, cr |-> 15, ep |-> 0])
 NoGo == [active |-> FALSE]
-Fresh == [pos |-> StartPos, hist |-> <<StartPos>>, go |-> NoGo, ready |-> FALSE, eof |-> FALSE, quit |-> FALSE, tend |-> 0, dead |-> FALSE, cmd |-> "startpos", skip |-> FALSE]
+Fresh == [pos |-> StartPos, hist |-> <<StartPos>>, go |-> NoGo, ready |-> FALSE, eof |-> FALSE, quit |-> FALSE, tend |-> 0, dead |-> FALSE, cmd |-> "startpos", skip |-> FALSE, base |-> <<StartPos>>]
 
 RECURSIVE Play(_, _, _)
 Play(p, texts, i) ==
@@ -78,7 +78,7 @@ InStep(e) ==
        \* a move list that is not legal by the rules (it came from the engine's own generator): nothing can be judged
        \* on this position, the session is skipped until the next position command
        IF Len(h) # Len(p.texts) + 1 THEN [sc EXCEPT !.skip = TRUE, !.cmd = e.line]
-       ELSE [sc EXCEPT !.pos = h[Len(h)], !.hist = h, !.cmd = e.line, !.skip = FALSE]
+       ELSE [sc EXCEPT !.pos = h[Len(h)], !.hist = h, !.base = h, !.cmd = e.line, !.skip = FALSE]
   ELSE IF Has(e, "go")
   THEN LET legal == Legal(sc.pos) IN
        [sc EXCEPT !.go = [active |-> TRUE, t |-> e.t, line |-> e.line,
@@ -227,8 +227,21 @@ PosDumpFails(e) ==
 (***************************************************************************)
 NoHs == [active |-> FALSE, hasPrev |-> FALSE]
 SameBoard(a, b) == a.r = b.r /\ a.stm = b.stm /\ a.cr = b.cr /\ a.ep = b.ep /\ a.d = b.d
+\* C10 at every go: the record handed to the search thread holds the occurrence counts of the game the last position
+\* command described (compared as multisets of counts: black box, the keys are opaque), whatever go commands were
+\* served in between (the engine's own replies are not part of that game)
+RecordMatches(h, tbl) ==
+  LET n == Len(h)
+      ids == [i \in 1..n |-> Identity(h[i])]
+      counts == {Cardinality({j \in 1..n : ids[j] = ids[i]}) : i \in 1..n}
+      recCounts(c) == Cardinality({j \in 1..Len(tbl) : tbl[j][2] = c})
+      histCounts(c) == Cardinality({ids[i] : i \in {x \in 1..n : Cardinality({j \in 1..n : ids[j] = ids[x]}) = c}})
+  IN \A c \in counts \cup {tbl[j][2] : j \in 1..Len(tbl)} : c = 0 \/ recCounts(c) = histCounts(c)
+
 HkFails(e) ==
-  CASE e.h = "go_start" -> {}
+  CASE e.h = "go_start" ->
+         IF s.skip \/ ~Has(e, "table") THEN {}
+         ELSE IF ~RecordMatches(s.base, e.table) THEN {<<"C10", "record-at-go", D(<<s.cmd, [j \in 1..Len(e.table) |-> e.table[j][2]]>>)>>} ELSE {}
     [] e.h = "srch_send" ->
          \* a send after the polling loop was left (or by the previous go's thread, whose channel is gone) is the benign
          \* race named SrchSendAfterClose in the design: it reaches nobody
